@@ -116,7 +116,7 @@ def c01(pid, tier, seed):
             TextShapes=("T", "TW", "TW1", "T2W1", "TnlT", "TnnT", "e", "nl", "nlT", "Tnl", "TWnnT", "T2WnnT", "TWnT", "TWnTW"), Tpls=("M", "PnM", "MnC"), Base=0),
         # a log line that is taller than the whole terminal (its top scrolls away, nothing may be lost)
         fam("single_tall_log", conf="single", W=3, H=4, D=4 if q else 5, BarOps=("tick", "set_message", "println", "finish"), MsgShapes=("a", "W1"), TextShapes=("T", "T5W"), Fins=("AndLeave",)),
-        fam("single_limited", W=3, H=4, D=4 if q else 5, BarOps=("burst", "tick", "set_message", "println", "finish", "finish_and_clear", "drop"), Hz=20, DTs=(0, 50000),
+        fam("single_limited", conf="single", W=3, H=4, D=4 if q else 5, BarOps=("burst", "tick", "set_message", "println", "finish", "finish_and_clear", "drop"), Hz=20, DTs=(0, 50000),
             MsgShapes=("a", "W1", "nlA"), TextShapes=("T", "TW1")),
         fam("single_pty", W=6, H=5, D=4 if q else 5, BarOps=("tick", "set_message", "println", "finish", "finish_and_clear", "drop"),
             MsgShapes=("a", "W1", "nlA"), TextShapes=("T", "TW1"), Fins=("AndLeave", "AndClear"), Tgt="pty", DTs=(0, 5000), M0="id"),
@@ -129,7 +129,7 @@ def c01(pid, tier, seed):
         fam("design_single_cover", conf="single", W=4, H=3, D=4 if q else 6, BarOps=("tick", "set_message", "println", "suspend", "finish_with_message", "finish_and_clear", "drop"),
             MsgShapes=("e", "a", "W", "W1", "2W1", "nlA", "AnnB"), TextShapes=("T", "TW", "e", "TnnT"), Tpls=("M", "MnC"), Fins=("AndLeave", "AndClear"), Cover=True,
             model="MC_Single", extra=dict(MaxLog=2, TextOnlyNewline=True)),
-        fam("single_deep", W=5, H=6, D=30, BarOps=ALL_BAR_OPS - {"iter"}, MsgShapes=("e", "a", "W", "W1", "2W1", "nlA", "Anl", "AnnB", "sA", "wide"),
+        fam("single_deep", conf="single", W=5, H=6, D=30, BarOps=ALL_BAR_OPS - {"iter"}, MsgShapes=("e", "a", "W", "W1", "2W1", "nlA", "Anl", "AnnB", "sA", "wide"),
             TextShapes=("T", "TW", "TW1", "TnlT", "e"), Tpls=("M", "PM", "PnM", "MnC", "LM"), Fins=("AndLeave", "AndClear", "Abandon", "WithMessage"),
             DTs=(0, 1000), mode=("sim", 400 if q else 4000, 32)),
     ]
@@ -163,9 +163,9 @@ def c02(pid, tier, seed):
             Tpls=("M",), Fins=("AndLeave",), M0="idw", shards=12),
         fam("multi_pty", W=6, H=10, Multi=True, MaxBars=2, D=4 if q else 5, BarOps=("tick", "set_message", "println", "finish", "drop", "mp_remove"),
             MpOps=("mp_println", "mp_clear"), MsgShapes=("a", "W1"), TextShapes=("T",), Fins=("AndLeave",), Tgt="pty", DTs=(0, 5000), M0="id", shards=12),
-        fam("multi_limited", W=4, H=12, Multi=True, MaxBars=2, D=5 if q else 6, BarOps=("burst", "set_message", "finish", "drop", "tick"), MpOps=(),
+        fam("multi_limited", conf="multi", W=4, H=12, Multi=True, MaxBars=2, D=5 if q else 6, BarOps=("burst", "set_message", "finish", "drop", "tick"), MpOps=(),
             MsgShapes=("a",), Tpls=("M",), Fins=("AndLeave",), Hz=2, DTs=(0,), M0="id", shards=12),
-        fam("multi_deep", W=5, H=40, Multi=True, MaxBars=4, D=30, BarOps=ALL_BAR_OPS | {"mp_remove"}, MpOps=("insert", "insert_rel", "mp_println", "mp_suspend", "mp_clear", "mp_set_alignment"),
+        fam("multi_deep", conf="multi", W=5, H=40, Multi=True, MaxBars=4, D=30, BarOps=ALL_BAR_OPS | {"mp_remove"}, MpOps=("insert", "insert_rel", "mp_println", "mp_suspend", "mp_clear", "mp_set_alignment"),
             MsgShapes=("e", "a", "W", "W1", "nlA", "AnnB"), TextShapes=("T", "TW1", "TnlT", "e"), Tpls=("M", "PnM", "MnC"),
             Fins=("AndLeave", "AndClear", "Abandon", "WithMessage"), DTs=(0, 1000), M0="id", mode=("sim", 400 if q else 4000, 32), shards=12),
     ]
@@ -187,17 +187,17 @@ def c02(pid, tier, seed):
 def c03(pid, tier, seed):
     q = tier == "quick"
     fams = [
-        fam("log_single_limited", W=4, H=6, D=4 if q else 5, BarOps=("burst", "tick", "println", "suspend", "set_message", "finish", "drop"),
+        fam("log_single_limited", conf="single", W=4, H=6, D=4 if q else 5, BarOps=("burst", "tick", "println", "suspend", "set_message", "finish", "drop"),
             MsgShapes=("a", "W1", "nlA"), TextShapes=("T", "TW1", "TnlT", "e", "TWnnT"), Hz=1, DTs=(0,), Fins=("AndLeave", "AndClear")),
         fam("log_multi", conf="multi", W=4, H=12, Multi=True, MaxBars=2, D=4 if q else 5, BarOps=("tick", "finish", "drop", "println"),
             MpOps=("mp_println", "mp_suspend", "mp_clear"), TextShapes=("T", "TW1"), Fins=("AndLeave",), Tpls=("M", "MnC"), M0="id", shards=12),
         # log lines taller than the terminal, through a bar and through the MultiProgress
         fam("log_tall", conf="multi", W=3, H=4, Multi=True, MaxBars=2, Pre=1, D=4 if q else 5, BarOps=("tick", "println", "finish", "drop"), MpOps=("mp_println",), TextShapes=("T", "T5W"),
             Fins=("AndLeave",), Tpls=("M",), M0="id", shards=12),
-        fam("log_multi_limited", W=4, H=12, Multi=True, MaxBars=3, D=14, BarOps=("burst", "tick", "finish", "drop", "println", "set_message"),
+        fam("log_multi_limited", conf="multi", W=4, H=12, Multi=True, MaxBars=3, D=14, BarOps=("burst", "tick", "finish", "drop", "println", "set_message"),
             MpOps=("mp_println", "mp_suspend"), MsgShapes=("a", "W1"), TextShapes=("T", "TW1", "TnlT"), Fins=("AndLeave", "AndClear"),
             Hz=1, DTs=(0, 1000000), M0="id", mode=("sim", 400 if q else 4000, 16), shards=12),
-        fam("log_deep", W=5, H=40, Multi=True, MaxBars=4, D=30, BarOps=("tick", "set_message", "println", "suspend", "finish", "finish_and_clear", "abandon", "drop", "mp_remove", "reset"),
+        fam("log_deep", conf="multi", W=5, H=40, Multi=True, MaxBars=4, D=30, BarOps=("tick", "set_message", "println", "suspend", "finish", "finish_and_clear", "abandon", "drop", "mp_remove", "reset"),
             MpOps=("insert_rel", "mp_println", "mp_suspend", "mp_clear"), MsgShapes=("e", "a", "W1", "nlA", "AnnB"), TextShapes=("T", "TW", "TW1", "T2W1", "TnlT", "TnnT", "e", "nl", "TWnnT", "TWnT"),
             Tpls=("M", "PnM", "MnC"), Fins=("AndLeave", "AndClear", "Abandon"), DTs=(0, 1000), M0="id", mode=("sim", 400 if q else 4000, 32), shards=12),
     ]
@@ -209,7 +209,7 @@ def c04(pid, tier, seed):
     q = tier == "quick"
     finishes = ("finish", "finish_with_message", "finish_and_clear", "abandon", "abandon_with_message", "finish_using_style")
     fams = [
-        fam("fin_single", W=4, H=6, D=3 if q else 4, BarOps=finishes + ("burst", "set_message", "inc", "drop", "iter"), MsgShapes=("a", "W1"),
+        fam("fin_single", conf="single", W=4, H=6, D=3 if q else 4, BarOps=finishes + ("burst", "set_message", "inc", "drop", "iter"), MsgShapes=("a", "W1"),
             Tpls=("MnC",), Fins=("AndLeave", "AndClear", "Abandon", "WithMessage", "AbandonWithMessage"), Hz=20, DTs=(0,), M0="id"),
         fam("fin_single_unlimited", conf="single", W=4, H=6, D=3 if q else 4, BarOps=finishes + ("tick", "reset", "drop", "iter", "set_length"), MsgShapes=("a",),
             Tpls=("MnC", "M"), Fins=("AndLeave", "AndClear", "Abandon", "WithMessage", "AbandonWithMessage"), M0="id"),
@@ -219,7 +219,7 @@ def c04(pid, tier, seed):
             Tpls=("MnC",), Fins=("AndLeave", "AndClear"), DTs=(0, 1000), M0="id"),
         fam("fin_multi_wrapped", conf="multi", W=4, H=14, Multi=True, MaxBars=3, Pre=2, Once=True, Cover=True, D=9 if q else 11, BarOps=("finish", "drop", "tick"), MpOps=(),
             Tpls=("M",), Fins=("AndLeave",), M0="idw", shards=12),
-        fam("fin_multi_limited", W=4, H=12, Multi=True, MaxBars=3, D=12, BarOps=finishes + ("burst", "inc", "drop", "iter"), MsgShapes=("a",), Tpls=("MnC",),
+        fam("fin_multi_limited", conf="multi", W=4, H=12, Multi=True, MaxBars=3, D=12, BarOps=finishes + ("burst", "inc", "drop", "iter"), MsgShapes=("a",), Tpls=("MnC",),
             Fins=("AndLeave", "AndClear", "Abandon", "WithMessage"), Hz=2, DTs=(0, 1000), M0="id", mode=("sim", 400 if q else 4000, 14), shards=12),
     ]
     return screen_check(pid, tier, seed, fams,
@@ -575,7 +575,7 @@ def c05(pid, tier, seed):
     # "skipped draws lose nothing: the next painted frame shows the latest position, length and texts" for several bars behind one
     # limited target is a statement about the whole frame: judged by the Screen contract on limited MultiProgress histories
     latest = screen_check(pid, tier, seed, [
-        fam("latest_multi", W=6, H=12, Multi=True, MaxBars=2, Pre=2, D=5 if q else 6, BarOps=("burst", "set_message", "inc", "set_length", "tick"), MpOps=(),
+        fam("latest_multi", conf="multi", W=6, H=12, Multi=True, MaxBars=2, Pre=2, D=5 if q else 6, BarOps=("burst", "set_message", "inc", "set_length", "tick"), MpOps=(),
             MsgShapes=("a", "W1"), Tpls=("MnC",), Fins=("AndLeave",), Hz=2, DTs=(0, 600000), M0="id", shards=12)], "")
     states += latest["coverage"]["states"]
     trans += latest["coverage"]["transitions"]
